@@ -353,14 +353,22 @@ class FnGen:
                 own_s = " @owned"
             params.append(f"{v.name}: {v.ty()}{own_s}")
         extra = []
+        self.param_order = [v.name for v in self.vars]
         if self.chance(0.4):
             params.append("xs: array[TCD, n]")
             extra.append("arr_n")
-        if self.chance(0.3):
-            params.append("kc: int @comptime")
+            self.param_order.append("xs")
+        # comptime parameters go to a random position (in front of a type variable's first use they
+        # shift its index under partial monomorphisation)
+        if self.chance(0.35):
+            pos = self.r.randint(0, len(params))
+            params.insert(pos, "kc: int @comptime")
+            self.param_order.insert(pos, "kc")
             extra.append("comptime_int")
-        if self.chance(0.25):
-            params.append("nn: nat @comptime")
+        if self.chance(0.3):
+            pos = self.r.randint(0, len(params))
+            params.insert(pos, "nn: nat @comptime")
+            self.param_order.insert(pos, "nn")
             extra.append("comptime_nat")
         params += ["b0: bool", "b1: bool", "k0: int"]
         self.cls = {"b0": "bool", "b1": "bool", "k0": "int"}
@@ -427,10 +435,12 @@ def generate(rng: random.Random) -> tuple[str, str | None, list[str]]:
     nf = rng.randint(1, 3)
     text = [HEADER]
     names = []
+    main_ids: list[int] = []
     kinds: list[str] = []
     for i in range(nf):
         fg = FnGen(rng, i)
         name, ftxt, vs, extra = fg.generate()
+        porder = fg.param_order
         text.append(ftxt)
         kinds += fg.kinds
         if not ({"comptime_int", "comptime_nat"} & set(extra)):
@@ -440,7 +450,7 @@ def generate(rng: random.Random) -> tuple[str, str | None, list[str]]:
         if all(v.kind in ("cd", "d") for v in vs):
             conc = {k: rng.choice(CONCRETE[k]) for k in ("cd", "d")}
             ml = [f"@guppy\ndef main{i}() -> None:"]
-            args = []
+            argv = {}
             for v in vs:
                 val = mk_value(conc[v.kind])
                 if v.wrap == "box":
@@ -448,31 +458,37 @@ def generate(rng: random.Random) -> tuple[str, str | None, list[str]]:
                 elif v.wrap == "pair":
                     val = f"({val}, 1)"
                 ml.append(f"    {v.name} = {val}")
-                args.append(v.name)
+                argv[v.name] = v.name
             if "arr_n" in extra:
                 ml.append(f"    xs = array({', '.join(mk_value(conc['cd']) for _ in range(rng.randint(1, 3)))})")
-                args.append("xs")
+                argv["xs"] = "xs"
             if "comptime_int" in extra:
-                args.append(str(rng.randint(-3, 9)))
+                argv["kc"] = str(rng.randint(-3, 9))
             if "comptime_nat" in extra:
-                args.append(str(rng.randint(0, 5)))
-            args += ["True", "False", "2"]
-            ml.append(f"    out = {name}({', '.join(args)})")
+                argv["nn"] = str(rng.randint(0, 5))
+            tail = ["True", "False", "2"]
+            ml.append(f"    out = {name}({', '.join([argv[p_] for p_ in porder] + tail)})")
             if {"comptime_int", "comptime_nat"} & set(extra) and all(v.kind == "cd" for v in vs):
                 # a second monomorphisation of the same function (different comptime values)
-                args2 = list(args)
-                k_ = len(vs) + (1 if "arr_n" in extra else 0)
+                argv2 = dict(argv)
                 if "comptime_int" in extra:
-                    args2[k_] = str(int(args2[k_]) + 11)
-                    k_ += 1
+                    argv2["kc"] = str(int(argv["kc"]) + 11)
                 if "comptime_nat" in extra:
-                    args2[k_] = str(int(args2[k_]) + 7)
+                    argv2["nn"] = str(int(argv["nn"]) + 7)
                 if "arr_n" in extra:
                     ml.append(f"    xs2 = array({', '.join(mk_value(conc['cd']) for _ in range(rng.randint(1, 3)))})")
-                    args2[len(vs)] = "xs2"
-                ml.append(f"    out2 = {name}({', '.join(args2)})")
+                    argv2["xs"] = "xs2"
+                ml.append(f"    out2 = {name}({', '.join([argv2[p_] for p_ in porder] + tail)})")
+            main_ids.append(i)
             text.append("\n".join(ml) + "\n\n")
             names.append(f"main{i}")
+    if len(main_ids) >= 2:
+        # all of them in one module / one compile: drop insertion and type-bound handling see generic
+        # functions with *different* bounds at the same parameter index
+        order = list(main_ids)
+        rng.shuffle(order)
+        text.append("@guppy\ndef main_all() -> None:\n" + "\n".join(f"    main{j}()" for j in order) + "\n\n")
+        names.append("main_all")
     # direct calls of the declared generic helpers at concrete types, incl. T := None
     if rng.random() < 0.5:
         ml = ["@guppy", "def main_direct() -> None:"]
